@@ -30,8 +30,8 @@ const IDENTS: [&str; 3] = ["Kk", "Sis", "KK"];
 
 pub fn programs(tier: Tier) -> ProgramSet {
     let pool: Vec<&str> = match tier {
-        Tier::Quick => vec!["Kk", "ss", "é", "XY", "x1"],
-        Tier::Thorough => vec!["Kk", "ss", "i", "é", "xé", "XY", "x1", "İ", "", "ſ"],
+        Tier::Quick => vec!["Kk", "ss", "é", "XY", "x1", "Éa"],
+        Tier::Thorough => vec!["Kk", "ss", "i", "é", "xé", "XY", "x1", "İ", "", "ſ", "Éa", "ÉCOLE"],
     };
     let k = match tier {
         Tier::Quick => 1,
@@ -74,6 +74,14 @@ pub fn programs(tier: Tier) -> ProgramSet {
                             true
                         }));
                     }
+                }
+                // two spellings of ONE variant that differ only in ASCII case (both must be accepted whatever the flags say)
+                for i in 0..n {
+                    devs.push(dev(format!("v{}.serialize=[\"xB\", \"XB\"]", i), &[&format!("sp{}", i)], move |s| {
+                        s.variants[i].serialize.push("xB".into());
+                        s.variants[i].serialize.push("XB".into());
+                        true
+                    }));
                 }
                 devs.push(dev("serialize_all=\"lowercase\"", &["style"], |s| {
                     s.serialize_all = Some("lowercase".into());
